@@ -492,7 +492,6 @@ func releasedBefore(fn *ssa.Function) map[ssa.Instruction]map[string]bool {
 	return out
 }
 
-
 // paramKey names a parameter by its position (the receiver is #0), so that
 // keys do not depend on how the source happens to call it.
 func paramKey(p *ssa.Parameter) string {
